@@ -124,9 +124,11 @@ class Renderer:
     BOOLS = ["a.b", "a.c", "b0.b", "b0.c", "c0.b", "c0.c"]
     INTS = ["a.i", "a.j", "b0.i", "b0.j", "c0.i", "c0.j"]
 
-    def __init__(self, context, wrapper="ret", label_style="const"):
+    def __init__(self, context, wrapper="ret", label_style="const", void_expr="call"):
         self.context = context
         self.wrapper = wrapper
+        self.void_expr = void_expr      # expression statements of callbacks: 'call' | 'literal' | 'enum' | 'object' | 'read'
+
         self.label_style = label_style      # case labels: 'const' | 'ternary' | 'and' | 'or' (labels spanning several blocks)
         self.k = 0
         self.nb = 0
@@ -192,8 +194,13 @@ class Renderer:
                 (f"{pad}a.done({k});", ("call", "done", ("k", k)))
         if tag == "E":
             k = self.const()
-            return (f"{pad}{k};", ("expr", ("k", k))) if v else \
-                (f'{pad}a.say("{k}");', ("call", "say", ("k", str(k))))
+            if v:
+                return f"{pad}{k};", ("expr", ("k", k))
+            if self.void_expr == "call":
+                return f'{pad}a.say("{k}");', ("call", "say", ("k", str(k)))
+            # a value that is computed and dropped: no effect at all
+            text = {"literal": f'"keep{k}"', "enum": "Qt.AlignLeft", "object": "b0", "read": "b0.i"}[self.void_expr]
+            return f"{pad}{text};", ("expr", ("k", k))
         if tag == "R":
             if v:
                 k = self.const()
